@@ -6,6 +6,6 @@ CONSTANTS
   Gap = 12
   ItemCap = 8
   ReusePorts = FALSE
-  StrictGap = FALSE
-  FwdStamps <- FwdNone
+  StrictGap = TRUE
+  FwdStamps <- FwdAll
 INVARIANTS Emit SameExchange HalfRTT PrevConsistent NoPanic
